@@ -900,7 +900,9 @@ public:
                         }
                         else
                         {
-                            state_ = csv_parse_state::end_record;
+                            // The ignored field may be the only one: the record it began is still ended
+                            end_record(local_visitor, ec);
+                            state_ = csv_parse_state::no_more_records;
                         }
                     }
                     else
@@ -929,7 +931,8 @@ public:
                     }
                     else
                     {
-                        state_ = csv_parse_state::end_record;
+                        end_record(local_visitor, ec);
+                        state_ = csv_parse_state::no_more_records;
                     }
                     break;
                 case csv_parse_state::end_record:
